@@ -221,22 +221,38 @@ def threaded_case(case):
         tokens = [sem.acquire('A', False) for _ in range(count)]
         results = {}
         lock = threading.Lock()
+        held = [count]  # permits currently held (the main thread holds `count` of them)
+        max_held = [count]
 
         def acq(i):
             tag = 'A' if not multi_tag else ('A', 'B')[i % 2]
             tok = sem.acquire(tag, True)
             with lock:
                 results[i] = (tag, tok)
+                held[0] += 1
+                max_held[0] = max(max_held[0], held[0])
+            time.sleep(0)
+            with lock:
+                held[0] -= 1
             sem.release(tag, tok)
 
         ths = [threading.Thread(target=acq, args=(i,), daemon=True, name=f'vf-acq{i}') for i in range(k)]
         for t in ths:
             t.start()
         watchdog.wait_quiescent(2.0)
-        for idx in order:
+        late = []
+        for n_rel, idx in enumerate(order):
+            with lock:
+                held[0] -= 1
             sem.release('A', tokens[idx])
+            if case.get('late'):
+                # a fresh acquirer arriving right after the release competes with the waiter that was just notified
+                t = threading.Thread(target=acq, args=(100 + n_rel,), daemon=True, name=f'vf-late{n_rel}')
+                late.append(t)
+                t.start()
             if case.get('settle'):
                 watchdog.wait_quiescent(1.0)
+        ths = ths + late
         r = watchdog.await_or_deadlock(lambda: not any(t.is_alive() for t in ths), None, None, wall_timeout=20.0)
     finally:
         inj.uninstall()
@@ -245,6 +261,9 @@ def threaded_case(case):
     if r == 'deadlock':
         viol.append(V(f'{cls} semaphore({count}): {len(blocked)} acquirer(s) still blocked at quiescence after every issued token was '
                       f'released (release order {order})', cls=cls, sym='lost-wakeup'))
+    if max_held[0] > count:
+        viol.append(V(f'{cls} semaphore({count}): {max_held[0]} permits were held at once (release order {order}, late acquirers '
+                      f'{bool(case.get("late"))})', cls=cls, sym='over-admission'))
     fatal = r != 'done'
     final = None
     if r == 'done' and cls == 'sliding':
@@ -253,7 +272,7 @@ def threaded_case(case):
             viol.append(V(f'sliding semaphore({count}) ends with current_count()={final} after all tokens released', cls=cls,
                           sym='capacity-not-restored'))
     return {'verdict': 'violated' if viol else ('held' if r == 'done' else ('violated' if viol else 'inconclusive')),
-            'key': f'thr-{cls}-{count}-{k}-{order}-{multi_tag}', 'violations': viol,
+            'key': f'thr-{cls}-{count}-{k}-{order}-{multi_tag}-{bool(case.get("late"))}', 'violations': viol,
             'stats': {'threaded_runs': 1, 'yield_events': inj.events, 'acquirers': k},
             'summary': {'order': order, 'results': {str(i): v for i, v in results.items()}, 'await': r}, 'fatal': fatal}
 
@@ -296,9 +315,11 @@ def gen_cases(tier, seed):
                     for multi in (False, True):
                         for settle in (False, True):
                             for rep in range(1 if quick else 4):
-                                cases.append({'type': 'thr', 'cls': cls, 'count': count, 'k': k, 'order': list(order),
-                                              'multi_tag': multi, 'settle': settle, 'seed': rng.randrange(1 << 30),
-                                              'yield_p': rng.choice([0.0, 0.2, 0.5])})
+                                for late in (False, True):
+                                    for yp in ((0.0, 0.5) if late else (rng.choice([0.0, 0.2, 0.5]),)):
+                                        cases.append({'type': 'thr', 'cls': cls, 'count': count, 'k': k, 'order': list(order),
+                                                      'multi_tag': multi, 'settle': settle and not late, 'late': late,
+                                                      'seed': rng.randrange(1 << 30), 'yield_p': yp, 'reps': 6 if late else 1})
     # end-to-end probe after fault / cancel runs
     from .c04 import fault_or_cancel
 
@@ -329,7 +350,22 @@ def run_case(case):
         return {'verdict': 'violated' if viol else 'held', 'key': 'tasksem', 'violations': viol[:5], 'stats': {'tasksem_ops': n},
                 'summary': {'ops': n}}
     if t == 'thr':
-        return threaded_case(case)
+        res = None
+        for rep in range(case.get('reps', 1)):
+            c2 = dict(case, seed=case['seed'] + rep)
+            r = threaded_case(c2)
+            if res is None:
+                res = r
+            else:
+                for k, v in r['stats'].items():
+                    res['stats'][k] = res['stats'].get(k, 0) + v
+                res['violations'] += r['violations']
+                if r['verdict'] == 'violated':
+                    res['verdict'] = 'violated'
+            if r.get('fatal') or r['verdict'] == 'violated':
+                res['fatal'] = r.get('fatal', False)
+                break
+        return res
     return e2e.run_with(case['spec'], probe_eval)
 
 
